@@ -105,7 +105,7 @@ func guard(panics *atomic.Int64, f func()) {
 func evChild(c *vf.Ctx, part int, race bool, only string, onlyNo int) {
 	env := &evEnv{c: c, rep: newReporter(c), race: race}
 	env.pool = workerpool.New("c15", workerpool.WithWorkerCount(4)).Start()
-	kinds := []string{"dyn", "dyn-pooled", "max-event", "max-hook", "link", "ev0", "ev2"}
+	kinds := []string{"dyn", "dyn-pooled", "max-event", "max-hook", "max-hookless", "link", "ev0", "ev2"}
 	rounds := c.Pick(500, 1500)
 	if race {
 		rounds = c.Pick(200, 500)
@@ -124,6 +124,13 @@ func evChild(c *vf.Ctx, part int, race bool, only string, onlyNo int) {
 		for _, k := range kinds {
 			env.round(k, part*1000000+r)
 		}
+		// the limit rounds are cheap and their verdict needs real overlap of a few instructions:
+		// more of them (own PRNG streams) keep the observation robust on a loaded machine
+		for j := 1; j <= 3; j++ {
+			for _, k := range []string{"max-event", "max-hook", "max-hookless", "max-ladder"} {
+				env.round(k, part*1000000+j*100000+r)
+			}
+		}
 	}
 }
 
@@ -139,6 +146,10 @@ func (e *evEnv) round(kind string, no int) {
 		e.roundMax(no, true)
 	case "max-hook":
 		e.roundMax(no, false)
+	case "max-hookless":
+		e.roundHookless(no)
+	case "max-ladder":
+		e.roundLadder(no)
 	case "link":
 		e.roundLink(no)
 	case "ev0":
